@@ -498,7 +498,9 @@ func (fc *FnCtx) checkPost(st *State, at ast.Node) {
 	fc.oldEnv, fc.oldFresh = map[string]Val{}, map[string]bool{}
 	fc.applyUses(st, "use-exit", -1, fc.body.Rbrace-1, at)
 	sc := fc.fnScope(st, fc.body.Rbrace-1)
-	for i, cl := range fc.contract.clauses("ensures") {
+	// `ensures` are exported to callers; `checks` are postconditions that may mention locals
+	// (checked here, never assumed at call sites)
+	for i, cl := range append(fc.contract.clauses("ensures"), fc.contract.clauses("checks")...) {
 		fc.scope = sc
 		t := fc.tr(st, cl.Expr)
 		fc.scope = nil
@@ -506,7 +508,7 @@ func (fc *FnCtx) checkPost(st *State, at ast.Node) {
 		if label == "" {
 			label = fmt.Sprintf("%d", i)
 		}
-		fc.oblige(st, "post/"+label, "post", fc.contract.tagsFor(cl), t.T, "ensures "+cl.Text, nil)
+		fc.oblige(st, "post/"+label, "post", fc.contract.tagsFor(cl), t.T, cl.Kind+" "+cl.Text, nil)
 	}
 	// scanner protocol (C17): every scanner created on this path either consumed its
 	// whole input or its failure was reported before returning normally.
